@@ -18,7 +18,7 @@ func vStdCfg(prefix, idBase string, nDocs int, wide int) gCfg {
 		return gCfg{prefix: prefix, idBase: idBase, nDocs: nDocs, wide: wide, maxAP: 1, idDV: true,
 			fields: []gField{
 				{name: "f", terms: []string{""}, tv: true, maxLocs: 1, dv: true, store: true, always: true},
-				{name: "c", terms: []string{"é"}, tv: true, maxLocs: 1, comp: true, locField: "f"},
+				{name: "c", terms: []string{"é"}, tv: true, maxLocs: 2, fixLocs: true, comp: true, locFields: []string{"f", ""}, noTVOpt: true},
 			}}
 	}
 	if vParam("lite", 0) == 1 {
